@@ -39,3 +39,21 @@ Proof. exact audit_conns_bound. Qed.
 Theorem c19_kex_init_only_in_probes : forall ca skip k pe c,
   In c (fst (audit_conns ca skip k pe)) -> sends_kex_init c = true -> exists t, (exists b, c = CHostKey t b) \/ (exists r b, c = CGex t r b).
 Proof. exact kex_init_only_in_probes. Qed.
+
+(* which phases run is decided by one block of audit(); the following are theorems about that block as it reads in the current source (T1c translation) *)
+From VGen Require Import Tables.
+From VProofs Require Import TieC19.
+Theorem c19_dos_only_on_request : forall dheat flood ca gt skip,
+  (In "dheat"%string (src_audit_phases dheat flood ca gt skip) -> dheat = true) /\
+  (In "rate-flood"%string (src_audit_phases dheat flood ca gt skip) -> flood = true).
+Proof. exact dos_only_on_request. Qed.
+Theorem c19_standard_audit_phases : forall ca skip,
+  src_audit_phases false false ca ""%string skip =
+  if ca then [] else ["hostkey"; "gex"]%string ++ (if skip then [] else ["rate-check"%string]).
+Proof. exact standard_audit_phases. Qed.
+Theorem c19_skip_means_no_rate_check : forall dheat flood ca gt, ~ In "rate-check"%string (src_audit_phases dheat flood ca gt true).
+Proof. exact skip_means_no_rate_check. Qed.
+Theorem c19_model_phases_agree : forall ca skip k pe,
+  (In "hostkey"%string (src_audit_phases false false ca ""%string skip) \/ fst (audit_conns ca skip k pe) = [CFirst]) /\
+  (In "rate-check"%string (src_audit_phases false false ca ""%string skip) \/ snd (audit_conns ca skip k pe) = 0%Z).
+Proof. exact model_phases_agree. Qed.
